@@ -58,6 +58,7 @@ that the first pass would have kept (mass of the feature mask on the frame hande
 minmass) is in the output AT ITS OWN PIXEL (the complete trajectories are those of the complete
 detections); nothing withheld -> the partition equals detect-then-link.
 """
+import collections
 import contextlib
 import math
 from fractions import Fraction
@@ -844,7 +845,7 @@ def draw_cam(rng, nfr, amp_hi):
     return cam
 
 
-_REJECTS = __import__("collections").Counter()      # why the generator discarded a draw (development aid)
+_REJECTS = collections.Counter()      # why the generator discarded a draw (development aid)
 
 
 def gen_cam_movie(rng):
